@@ -467,3 +467,34 @@ Theorem C06_disarm_outcomes_witness :
    In (HTimeout 1 1) (ready (final step dis_state [AYield 2]))).
 Proof. exact disarm_outcomes_witness. Qed.
 Print Assumptions C06_disarm_outcomes_witness.
+
+(* ---- tie T for the timeout helpers: fail_at, fail_after, move_on_at, move_on_after of src/anyio/_core/_tasks.py are
+        regenerated on every run by tools/translate_timeouts.py as shapes (scopes/TimeoutGen.v: which deadline the scope
+        gets, whether `shield` reaches it, what follows the block; language scopes/TimeoutSpec.v) and proved equal to what
+        the S machine assumes of them: AFailAt t d sh creates `new_scope s d sh`, AExit t c true raises TimeoutError iff the
+        scope swallowed its cancellation and its deadline has passed, the move_on helpers add nothing after the block.
+        Trusted: the translator's grammar (tools/translate_timeouts.py), @contextmanager's protocol. ---- *)
+From AV Require Import TimeoutSpec TimeoutGen TimeoutEq.
+
+Theorem C06_tie_timeout_helpers : forall (i : nat) (now : Z) (arg : option Z) (sh : bool), i <= 3 ->
+  shape_of gen_table (gen_table i) now arg sh = spec_shape i now arg sh.
+Proof. exact tie_timeout_helpers. Qed.
+Print Assumptions C06_tie_timeout_helpers.
+
+Theorem C06_tie_fail_after_is_AFailAt : forall (s : st) (now : Z) (delay : option Z) (sh : bool),
+  let '(d, sh', p) := shape_of gen_table gen_fail_after now delay sh in
+  new_scope s d sh' = new_scope s (option_map (Z.add now) delay) sh /\ p = PTimeoutIfCaughtAndDue.
+Proof. exact fail_after_is_AFailAt. Qed.
+Print Assumptions C06_tie_fail_after_is_AFailAt.
+
+Theorem C06_tie_fail_at_post_is_machine_condition : forall (sc : scope) (now : Z),
+  let '(_, _, p) := shape_of gen_table gen_fail_at now None false in
+  post_raises p sc now = (s_caught sc && match s_deadline sc with Some d => Z.leb d now | None => false end).
+Proof. exact fail_at_post_is_machine_condition. Qed.
+Print Assumptions C06_tie_fail_at_post_is_machine_condition.
+
+Theorem C06_tie_move_on_has_no_post : forall (now : Z) (arg : option Z) (sh : bool) (sc : scope) (t : Z),
+  post_raises (snd (shape_of gen_table gen_move_on_at now arg sh)) sc t = false /\
+  post_raises (snd (shape_of gen_table gen_move_on_after now arg sh)) sc t = false.
+Proof. exact move_on_has_no_post. Qed.
+Print Assumptions C06_tie_move_on_has_no_post.
